@@ -479,3 +479,140 @@ func VH19d_transports() {
 	}
 	sock.Close()
 }
+
+// VH19e_inherit: option inheritance. (a) New contexts: every option that both
+// the socket and a fresh context of the pattern know (Get works on both) is
+// set to a non-default value on the socket (durations are solver variables);
+// a context opened afterwards is asked for each. A pattern either provides
+// inheritance or it does not (REP does not): if the new context inherited at
+// least one option, it must have inherited every one of them. (b) New dialers
+// and listeners of every transport report the socket's MaxRecvSize and
+// reconnect times (solver variables) that were set before they were created.
+func VH19e_inherit() {
+	if verif.Choice("part", 2) == 0 {
+		ctxProtos := []string{"req", "rep", "sub", "surveyor", "respondent"}
+		proto := ctxProtos[verif.Choice("proto", len(ctxProtos))]
+		lab := "C19/inherit/" + proto
+		sock := vp.New(proto)
+		probe, err := sock.OpenContext()
+		verif.Assert(err == nil, lab+"/open-context")
+		if err != nil {
+			return
+		}
+		type ov struct {
+			name string
+			val  interface{}
+		}
+		d1 := verif.Duration("d1")
+		d2 := verif.Duration("d2")
+		d3 := verif.Duration("d3")
+		verif.Assume(verif.And(verif.And(d1 >= 1, d1 <= time.Hour), verif.And(verif.And(d2 >= 1, d2 <= time.Hour), verif.And(d3 >= 1, d3 <= time.Hour))))
+		cands := []ov{{mangos.OptionRecvDeadline, d1}, {mangos.OptionSendDeadline, d2}, {mangos.OptionRetryTime, d3}, {mangos.OptionSurveyTime, d3},
+			{mangos.OptionBestEffort, true}, {mangos.OptionFailNoPeers, true}, {mangos.OptionReadQLen, 7}, {mangos.OptionWriteQLen, 9}, {mangos.OptionTTL, 5}}
+		var set []ov
+		for _, o := range cands {
+			if _, e := probe.GetOption(o.name); e != nil {
+				continue // the pattern's contexts do not have this option
+			}
+			if _, e := sock.GetOption(o.name); e != nil {
+				continue
+			}
+			if sock.SetOption(o.name, o.val) != nil {
+				continue
+			}
+			set = append(set, o)
+		}
+		c, err := sock.OpenContext()
+		verif.Assert(err == nil, lab+"/open-context-2")
+		if err != nil {
+			return
+		}
+		inherited := 0
+		var missing []string
+		for _, o := range set {
+			got, gerr := c.GetOption(o.name)
+			same := false
+			if gerr == nil {
+				switch w := o.val.(type) {
+				case time.Duration:
+					g, ok := got.(time.Duration)
+					same = ok && g == w
+				case bool:
+					g, ok := got.(bool)
+					same = ok && g == w
+				case int:
+					g, ok := got.(int)
+					same = ok && g == w
+				}
+			}
+			if same {
+				inherited++
+			} else {
+				missing = append(missing, o.name)
+			}
+		}
+		if inherited > 0 {
+			verif.Reach("pattern-inherits")
+			for _, n := range missing {
+				verif.Fail(lab + "/" + n + "/not-inherited-by-a-new-context-although-the-pattern-inherits-its-other-options")
+			}
+		} else {
+			verif.Reach("pattern-does-not-inherit")
+		}
+		// an option set on the context itself sticks, and does not travel back to the socket
+		if len(set) > 0 {
+			o := set[0]
+			if dv, ok := o.val.(time.Duration); ok {
+				verif.Assert(c.SetOption(o.name, dv+1) == nil, lab+"/"+o.name+"/set-on-context")
+				g1, _ := c.GetOption(o.name)
+				g2, _ := sock.GetOption(o.name)
+				verif.Assert(g1.(time.Duration) == dv+1 && g2.(time.Duration) == dv, lab+"/"+o.name+"/context-option-leaks-to-the-socket")
+			}
+		}
+		sock.Close()
+		return
+	}
+	ti := verif.Choice("tran", len(tranList))
+	addr := tranList[ti].addr
+	lab := "C19/inherit/" + tranList[ti].name
+	sock := vp.New("pair")
+	maxrx := verif.Int("maxrx")
+	verif.Assume(verif.And(maxrx >= 0, maxrx <= 1<<30))
+	r := verif.Duration("reconn")
+	m := verif.Duration("max-reconn")
+	verif.Assume(verif.And(verif.And(r >= 1, r <= time.Hour), verif.And(m >= r, m <= 2*time.Hour)))
+	verif.Assert(sock.SetOption(mangos.OptionMaxRecvSize, maxrx) == nil, lab+"/set-maxrx")
+	verif.Assert(sock.SetOption(mangos.OptionReconnectTime, r) == nil, lab+"/set-reconn")
+	verif.Assert(sock.SetOption(mangos.OptionMaxReconnectTime, m) == nil, lab+"/set-max-reconn")
+	if verif.Choice("obj", 2) == 0 {
+		d, err := sock.NewDialer(addr, nil)
+		verif.Assert(err == nil, lab+"/new-dialer")
+		if err != nil {
+			return
+		}
+		if tranList[ti].name != "inproc" {
+			v, e := d.GetOption(mangos.OptionMaxRecvSize)
+			verif.Assert(e == nil && v.(int) == maxrx, lab+"/dialer/MAX-RCV-SIZE-not-inherited")
+		}
+		v, e := d.GetOption(mangos.OptionReconnectTime)
+		verif.Assert(e == nil && v.(time.Duration) == r, lab+"/dialer/RECONNECT-TIME-not-inherited")
+		v, e = d.GetOption(mangos.OptionMaxReconnectTime)
+		verif.Assert(e == nil && v.(time.Duration) == m, lab+"/dialer/MAX-RECONNECT-TIME-not-inherited")
+		verif.Reach("dialer-inherits")
+	} else {
+		l, err := sock.NewListener(addr, nil)
+		verif.Assert(err == nil, lab+"/new-listener")
+		if err != nil {
+			return
+		}
+		if tranList[ti].name != "inproc" {
+			v, e := l.GetOption(mangos.OptionMaxRecvSize)
+			verif.Assert(e == nil && v.(int) == maxrx, lab+"/listener/MAX-RCV-SIZE-not-inherited")
+		}
+		verif.Reach("listener-inherits")
+	}
+	sock.Close()
+}
+
+var tranList = []struct{ name, addr string }{{"tcp", "tcp://127.0.0.1:5555"}, {"tlstcp", "tls+tcp://127.0.0.1:5556"}, {"ws", "ws://127.0.0.1:5557/x"},
+	{"wss", "wss://127.0.0.1:5558/x"}, {"inproc", "inproc://inh"}, {"ipc", "ipc:///tmp/verif-inh.sock"}}
